@@ -225,20 +225,19 @@ def r2(ctx, F, sc):
                 lit_ok = all(cfg.dominates(bi, rd[3]) for bi, _ in adv_l) and bool(adv_l)
     ctx.check(lit_ok, 'C01.R2', '%s:literal-byte-is-source[pos]' % tag, 'push_literal_byte(source[pos]) with the pre-increment pos',
               'the literal byte emitted is not source[pos] (before the advance)', term_loc(b, emit_l[0]) if emit_l else None)
-    # loop condition pos + block_size <= len
-    cond_ok = False
-    for st in b.blocks[head]['stmts'] + [s for t, _ in cfg.succ[head] for s in b.blocks[t]['stmts']] + \
-            [s for bi in blocks for s in b.blocks[bi]['stmts']]:
-        rv = st['rv']
-        if rv['k'] == 'bin' and rv['op'] == 'Le':
-            lhs = norm_add(term_of(fl, rv['ops'][0]))
-            rhs_o = fl.origins(rv['ops'][1])
-            if lhs[0] == 'add' and strip_payload(lhs[1]) == ('phi', pos) and is_bs_term(lhs[2]) and \
-               any(o.kind == 'call' and o.key.endswith('::len') and sc.is_src(call_arg_origins(fl, o.bb, 0)) for o in rhs_o):
-                oc = fl.outcomes(None, st['dst']['l'])
-                te = oc.get('true', set())
-                if te and all(cfg.edges_guard(te, x) for x in emit_c + emit_l):
-                    cond_ok = True
+    # loop condition pos + block_size <= len (any spelling: `<=`, `>=` with swapped operands, a negated `>` that breaks)
+    def is_pos_plus_bs(op_):
+        lhs = norm_add(term_of(fl, op_))
+        return lhs[0] == 'add' and strip_payload(lhs[1]) == ('phi', pos) and is_bs_term(lhs[2])
+
+    def is_src_len(op_):
+        os_ = [o for o in fl.origins(op_) if o.kind != 'comb']
+        return bool(os_) and all(o.kind == 'call' and o.key.endswith('::len') and sc.is_src(call_arg_origins(fl, o.bb, 0)) for o in os_)
+
+    def is_pos(op_):
+        return strip_payload(term_of(fl, op_)) == ('phi', pos)
+    le_e = order_edges(fl, is_pos_plus_bs, is_src_len)
+    cond_ok = bool(le_e) and all(cfg.edges_guard(le_e, x) for x in emit_c + emit_l)
     ctx.check(cond_ok, 'C01.R2', '%s:loop-condition' % tag, 'emissions only while pos + block_size <= source.len()',
               'the scan loop is not guarded by pos + block_size <= source.len()', term_loc(b, head))
     # tail
@@ -247,13 +246,20 @@ def r2(ctx, F, sc):
         if tb in blocks:
             continue
         rd = sc.range_desc(tt['args'][1])
-        if rd and rd[0] and rd[1] == 'RangeFrom' and strip_payload(rd[2]['start']) == ('phi', pos):
-            for bi in cfg.reachable():
-                for st in b.blocks[bi]['stmts']:
-                    rv = st['rv']
-                    if rv['k'] == 'bin' and rv['op'] == 'Lt' and strip_payload(term_of(fl, rv['ops'][0])) == ('phi', pos):
-                        oc = fl.outcomes(None, st['dst']['l'])
-                        te = oc.get('true', set())
+        tail_slice = bool(rd and rd[0] and rd[1] == 'RangeFrom' and strip_payload(rd[2]['start']) == ('phi', pos))
+        if not tail_slice:
+            # the same bytes spelled source.split_at(pos).1
+            for o in fl.origins(tt['args'][1]):
+                if o.kind == 'call' and o.key.endswith('::split_at') and tuple(o.path)[-1:] == ('1',):
+                    t_ = b.blocks[o.bb]['term']
+                    if sc.is_src(fl.origins(t_['args'][0])) and is_pos(t_['args'][1]):
+                        tail_slice = True
+        if tail_slice:
+            lt_e = order_edges(fl, is_pos, is_src_len, strict=True)
+            for bi in sorted({e[0] for e in lt_e}):
+                for _once in (1,):
+                    if True:
+                        te = {e for e in lt_e if e[0] == bi}
                         if te and cfg.edges_guard(te, tb):
                             # unavoidable on the true edge
                             un = True
